@@ -480,3 +480,7 @@ def check(ctx, run):  # noqa: F811
     histories_rule(ctx, run, "C16.R7")
     from ..registry import primary_histories_rule
     primary_histories_rule(ctx, run, "C16.R7")
+    from ..registry import resimulation_rule
+    resimulation_rule(ctx, run, "C16.R7")
+    from ..registry import reconfigure_rule
+    reconfigure_rule(ctx, run, "C16.R7")
